@@ -52,20 +52,73 @@ Definition up_dealloc_node (s : upool) (p : Z) : option (upool * obs * list ev) 
 Definition up_init (k : akind) (ns block_size : Z) : upool :=
   {| up_ar := ar_init k false block_size; up_g := {| ug_l := u_empty ns; ug_live := [] |} |}.
 
+(* ---------- the constructor and the array operations ---------- *)
+(* allocate_block(): a block from the arena goes to the list *)
+Definition up_grow (s : upool) (answer : option Z) : upool * bool * list ev :=
+  match astep (up_ar s) ABlock answer with
+  | (a', ABlk m sz, _) =>
+      ({| up_ar := a'; up_g := {| ug_l := u_insert (ug_l (up_g s)) m sz; ug_live := ug_live (up_g s) |} |}, true,
+       [EUp (m - hdrZ) (sz + hdrZ); EIns (up_ns s) m sz])
+  | (a', AThrowUpstream, _) => ({| up_ar := a'; up_g := up_g s |}, false, [EUpFail])
+  | (a', _, _) => ({| up_ar := a'; up_g := up_g s |}, false, [])
+  end.
+(* memory_pool(node_size, block_size): the first block is taken at once *)
+Definition up_construct (k : akind) (ns block_size : Z) (answer : option Z) : upool * bool * list ev :=
+  up_grow (up_init k ns block_size) answer.
+
+(* allocate_array(n, node_size) on count*size bytes: mem = empty ? nullptr : list.allocate(bytes);
+   if (!mem) { allocate_block(); mem = list.allocate(bytes); if (!mem) throw bad_array_size; } *)
+Definition up_take_array (s : upool) (bytes : Z) : option (upool * Z) :=
+  let g := up_g s in let l := ug_l g in
+  match u_nodes l with
+  | [] => None
+  | _ :: _ =>
+      match u_alloc_array l bytes with
+      | Some (x, l') => Some ({| up_ar := up_ar s; up_g := {| ug_l := l'; ug_live := (x, slots_needed (u_ns l) bytes) :: ug_live g |} |}, x)
+      | None => None
+      end
+  end.
+Definition up_alloc_array (s : upool) (bytes : Z) (answer : option Z) : upool * obs * list ev :=
+  match up_take_array s bytes with
+  | Some (s', x) => (s', ObsOk x, [])
+  | None =>
+      match up_grow s answer with
+      | (s1, true, evs) => match up_take_array s1 bytes with Some (s', x) => (s', ObsOk x, evs) | None => (s1, ObsThrow, evs) end
+      | (s1, false, evs) => (s1, ObsThrow, evs)
+      end
+  end.
+Definition up_try_alloc_array (s : upool) (bytes : Z) : upool * obs * list ev :=
+  match up_take_array s bytes with Some (s', x) => (s', ObsOk x, []) | None => (s, ObsNull, []) end.
+Definition up_dealloc_array (s : upool) (p bytes : Z) : option (upool * obs * list ev) :=
+  let g := up_g s in let l := ug_l g in
+  match remove_alloc p (slots_needed (u_ns l) bytes) (ug_live g) with
+  | Some live' => Some ({| up_ar := up_ar s; up_g := {| ug_l := u_dealloc_array l p bytes; ug_live := live' |} |}, ObsTrue, [])
+  | None => None
+  end.
+
 (* ---------- histories ---------- *)
-Inductive pool_op := PAllocNode (answer : option Z) | PTryAllocNode | PDeallocNode (p : Z).
+Inductive pool_op :=
+  | PAllocNode (answer : option Z) | PTryAllocNode | PDeallocNode (p : Z)
+  | PAllocArray (bytes : Z) (answer : option Z) | PTryAllocArray (bytes : Z) | PDeallocArray (p bytes : Z).
 Definition spec_op_of (ns : Z) (o : pool_op) : op :=
   match o with
   | PAllocNode _ => OAlloc false false ns ns
   | PTryAllocNode => OAlloc true false ns ns
   | PDeallocNode p => ODealloc ns ns p
+  | PAllocArray bytes _ => OAlloc false true ns bytes
+  | PTryAllocArray bytes => OAlloc true true ns bytes
+  | PDeallocArray p bytes => ODealloc ns bytes p
   end.
 Definition up_step (s : upool) (o : pool_op) : option (upool * obs * list ev) :=
   match o with
   | PAllocNode answer => Some (up_alloc_node s answer)
   | PTryAllocNode => Some (up_try_alloc_node s)
   | PDeallocNode p => up_dealloc_node s p
+  | PAllocArray bytes answer => Some (up_alloc_array s bytes answer)
+  | PTryAllocArray bytes => Some (up_try_alloc_array s bytes)
+  | PDeallocArray p bytes => up_dealloc_array s p bytes
   end.
+Definition answer_of_op (o : pool_op) : option Z := match o with PAllocNode a | PAllocArray _ a => a | _ => None end.
 (* the pool's run together with the trace the Spec is shown: (operation, events, result) per step *)
 Fixpoint up_run (s : upool) (os : list pool_op) : option (upool * list (op * list ev * obs)) :=
   match os with
